@@ -767,3 +767,119 @@ PROPS["C20"] = Prop(
     "reader position at Done; blobs of 0, 1, 1024, 1025, 3000, 8 KiB+1 bytes (more in thorough) x bs 0..2 x queries x {honest, cut after every "
     "item, altered inside every item, extended}. non-trivial = non-empty stream",
     assumptions=DEC_ASSUME)
+
+
+def gen_c06(tier, rng):
+    cases = []
+    sizes = [0, 1, 1025, 2049, 4 * 1024 + 1, 5 * 1024 + 7, 8 * 1024, 13 * 1024 + 100] if tier == "quick" else ENC_SIZES + [23 * 1024 + 512, 31 * 1024 + 1]
+    for size in sizes:
+        n = nchunks(size)
+        for bs in range(0, 3 if tier == "quick" else 4):
+            oblen = 64 * (max(1, -(-n // (1 << bs))) - 1)
+            for q in std_queries(n, rng, 1)[: (5 if tier == "quick" else 24)]:
+                cors = [[]]
+                stride = 1499 if tier == "quick" else 311
+                for pos in list(range(0, size, stride)) + ([size - 1] if size else []):
+                    cors.append([0, pos, 1 + rng.randrange(255)])
+                for slot in range(oblen // 64):
+                    for half in (0, 32):
+                        cors.append([1, slot * 64 + half + rng.randrange(32), 1 + rng.randrange(255)])
+                for _ in range(3):
+                    c = []
+                    seenp = set()
+                    for _ in range(rng.randrange(2, 5)):
+                        w = rng.randrange(0, 2) if oblen else 0
+                        pos = rng.randrange(0, max(1, size if w == 0 else oblen))
+                        if (w, pos) not in seenp:
+                            seenp.add((w, pos))
+                            c += [w, pos, 1 + rng.randrange(255)]
+                    cors.append(c)
+                # zero-filled (never written) regions of data and outboard
+                if size > 1:
+                    cors.append([2, rng.randrange(0, size), 0])
+                    cors.append([2, (rng.randrange(0, n)) * 1024, 0])
+                if oblen:
+                    cors.append([3, 64 * rng.randrange(0, oblen // 64), 0])
+                    cors.append([3, 0, 0])
+                if tier == "quick":
+                    cors = [[]] + rng.sample(cors[1:], min(len(cors) - 1, 7))
+                for c in cors:
+                    v = rng.randrange(0, 4)
+                    ok = rng.randrange(0, 5)
+                    cases.append(("validate", [0 if size else 0, seed(rng), size, bs, v, ok, len(c) // 3] + c + q))
+    return cases
+
+
+def known_nonblank(r):
+    return False
+
+
+PROPS["C06"] = Prop(
+    [F_VALIDATE], gen_c06,
+    "validate: blobs up to 13 KiB (quick) / 31 KiB (thorough) x bs 0..2/3 x representative queries x stores {intact, one data byte altered "
+    "(strided), each half of each stored pair altered, random 2-4 position combinations, data zero-filled from a position / chunk boundary, "
+    "outboard zero-filled from a slot / entirely} x {sync, fsm} x {data, outboard-only} validators x five outboard kinds. "
+    "non-trivial = at least one range reported or withheld",
+    assumptions=DEC_ASSUME)
+
+
+# ------------------------------------------------------------------ C08 agreement families
+F_AGREE_ENC = Family("agree_enc", "Run.RunProto", "run_agree_enc", "holds_agree_enc", lambda a, o: len(o) > 3 and o[2] > 0)
+F_AGREE_DEC = Family("agree_dec", "Run.RunProto", "run_agree_dec", "holds_agree_dec", lambda a, o: len(o) > 12)
+F_AGREE_OB = Family("agree_ob", "Run.RunProto", "run_agree_ob", "holds_agree_ob", lambda a, o: a[2] > 1024)
+for f in (F_OUTBOARD, F_ENCODE, F_DECODE, F_VALIDATE, F_AGREE_ENC, F_AGREE_DEC, F_AGREE_OB):
+    f.shard_cases = 40
+
+
+def gen_c08(tier, rng):
+    cases = []
+    # encoders: intact and corrupted stores
+    for (fam, args) in gen_c04(tier, rng)[:: (3 if tier == "quick" else 2)]:
+        cases.append(("agree_enc", args))
+    for (fam, args) in gen_c05(tier, rng)[:: (3 if tier == "quick" else 2)]:
+        cases.append(("agree_enc", args))
+    # decoders: honest and tampered streams, all drivers
+    for (fam, args) in gen_c02(tier, rng)[:: (12 if tier == "quick" else 4)]:
+        cases.append(("agree_dec", args))
+    for (fam, args) in gen_c01(tier, rng)[:: (6 if tier == "quick" else 2)]:
+        cases.append(("agree_dec", args))
+    for (fam, args) in gen_c09(tier, rng)[:: (12 if tier == "quick" else 4)]:
+        cases.append(("agree_dec", args))
+    # outboards
+    sizes = BLOB_SIZES if tier == "quick" else BLOB_SIZES + [k * 512 for k in range(1, 41)]
+    for size in sizes:
+        for bs in range(0, 3 if tier == "quick" else 5):
+            cases.append(("agree_ob", [rng.randrange(0, 4), seed(rng), size, bs]))
+    return cases
+
+
+def known_f6(r):
+    """non-validating encoders differ from the validating ones when a touched chunk group is not fully selected"""
+    if r["family"] != "agree_enc":
+        return False
+    a = r["args"]
+    size, bs, ncor = a[2], a[3], a[6]
+    if ncor != 0:
+        return False
+    q = a[7:]
+    if not q:
+        return False
+    sel = py_sel(q, size)
+    n = nchunks(size)
+    g = 1 << bs
+    for ga in range(0, n, g):
+        cs = range(ga, min(ga + g, n))
+        if any(sel(c) for c in cs) and not all(sel(c) for c in cs):
+            return True
+    return False
+
+
+KNOWN_CLASSES["f6_partial_group"] = known_f6
+
+PROPS["C08"] = Prop(
+    [F_AGREE_ENC, F_AGREE_DEC, F_AGREE_OB], gen_c08,
+    "agree_enc: the five encoders (sync/fsm validating, sync/fsm non-validating, item stream) side by side on the encode cases of C04 "
+    "(intact) and C05 (corrupted); agree_dec: the four decode drivers side by side on the streams of C02, C01 and C09; agree_ob: all 15 "
+    "outboard creation entry points side by side. Each implementation is also compared with its own separately transcribed model. "
+    "non-trivial = non-empty output / stream / more than one chunk",
+    assumptions=DEC_ASSUME)
